@@ -409,12 +409,14 @@ class FileDownloader(Resource, object):
 
                     # last-byte-pos
                     if last == '':
+                        # open-ended: if first is beyond the end of the
+                        # file the range is valid but unsatisfiable, and
+                        # render() answers 416
                         last = filesize - 1
                     else:
                         last = int(last)
-
-                if last < first:
-                    raise ValueError
+                        if last < first:
+                            raise ValueError
 
                 return (first, last)
 
@@ -465,7 +467,8 @@ class FileDownloader(Resource, object):
             if ranges is not None:
                 first, last = ranges[0]
 
-                if first >= filesize:
+                if first >= filesize or filesize == 0:
+                    # (no byte range of an empty file can be satisfied)
                     raise WebError('First beyond end of file',
                                    http.REQUESTED_RANGE_NOT_SATISFIABLE)
                 else:
